@@ -81,7 +81,8 @@ def build_model(rng, idx: int, n_funcs: int):
         rd = rng.random() < 0.7
         h, d = pick_pair(rng, rng.random() < 0.5)
         result = {"hint": h if rh else None, "doc": d if rd else None}
-        f = {"name": f"fn{idx}x{j}", "method": rng.random() < 0.3, "params": params, "result": result}
+        f = {"name": f"fn{idx}x{j}", "method": rng.random() < 0.4, "params": params, "result": result}
+        f["mkind"] = rng.choice(["inst", "inst", "static", "class"])  # what a method's first written parameter is: self, nothing, cls
         if rng.random() < 0.2:
             # a constructor: parameters documented on the class, or (class without docstring) in the __init__ docstring
             f["method"] = False
@@ -149,7 +150,8 @@ def render_module(funcs, style: str) -> str:
                 out.append(f"class Ctor_{f['name']}:\n    def __init__(self, {sig}) -> None:\n        \"\"\"{b8[8:]}        \"\"\"\n        ...\n\n\n")
         elif f["method"]:
             body = "".join("        " + ln + "\n" if ln else "\n" for ln in doc.split("\n")[:-1])
-            out.append(f"class Holder_{f['name']}:\n    def {f['name']}(self, {sig}){ret}:\n        \"\"\"{body[8:]}        \"\"\"\n        ...\n\n\n")
+            deco, recv = {"inst": ("", "self, "), "static": ("    @staticmethod\n", ""), "class": ("    @classmethod\n", "cls, ")}[f.get("mkind", "inst")]
+            out.append(f"class Holder_{f['name']}:\n{deco}    def {f['name']}({recv}{sig}){ret}:\n        \"\"\"{body[8:]}        \"\"\"\n        ...\n\n\n")
         else:
             body = "".join("    " + ln + "\n" if ln else "\n" for ln in doc.split("\n")[:-1])
             out.append(f"def {f['name']}({sig}){ret}:\n    \"\"\"{body[4:]}    \"\"\"\n    ...\n\n\n")
